@@ -289,6 +289,26 @@ def check_case(case, col=None):
     if f and (plain.kind, plain.before, plain.after) != (m_c.kind, m_c.before, m_c.after):
         feats.add('flags-change-outcome')
         nt = True
+    # --- one list holding the same pattern text twice: compiled with its own flags, and as a string
+    for order in (0, 1):
+        ents = [ref_c, ref_s] if order == 0 else [ref_s, ref_c]
+        script = scripted.build_script(case['stream'], case['cuts'], {})
+        mo2 = refmodel.Model(list(script), case['tail'], encoding=case['enc'], maxread=2000)
+        mo2.P = e1.conv(case['pending'], text_mode)
+        m2 = mo2.expect(ents, case['w'])
+        mk = (lambda: [re.compile(nat(p), f), nat(p)]) if order == 0 else (lambda: [nat(p), re.compile(nat(p), f)])
+        obs = run_form(case, mk, 'expect', ic)
+        if m2.kind == 'match':
+            if obs['exc'] is not None or obs['ret'] != m2.index or obs['before'] != m2.before or obs['after'] != m2.after:
+                raise Violation('form-differs:same-text-twice', 'list [%s]: ret=%r exc=%r before=%r after=%r; the two entries taken '
+                                'separately give index %r before=%r after=%r'
+                                % ('compiled, str' if order == 0 else 'str, compiled', obs['ret'], obs['exc'], obs['before'],
+                                   obs['after'], m2.index, m2.before, m2.after))
+        else:
+            want = 'EOF' if m2.kind == 'eof' else 'TIMEOUT'
+            if obs['exc'] != want:
+                raise Violation('form-differs:same-text-twice', 'list with the same text twice: ret=%r exc=%r, neither entry occurs (%s expected)'
+                                % (obs['ret'], obs['exc'], want))
     # --- compiled, other string type: same text, same flags
     if text_mode or ascii_p:
         of = (f & ~re.UNICODE) if text_mode else f
